@@ -1,4 +1,5 @@
 """C16 — rotations and spherical coordinates."""
+import functools
 import math
 from vcheck import Case, hx, flist, parse_vals
 
@@ -86,17 +87,452 @@ def _perp(rng, n):
     s = 10 ** rng.uniform(-3, 3)
     return [s * x for x in c]
 
+# ---------------------------------------------------------------- call histories of the argument objects
+# One step = a tuple (name, args...).  Grammar (harness/C16.cpp, ocaml/C16_driver.ml): after a Vector argument `k step_1 .. step_k`:
+#   st i x | pa <list> | ma <list> | sa | ss | pl <list> | mi <list> | ms x | sm x | dv x | rs n | as n x | nz | nd | cx <list> | df
+#   cp | eq | se                                         (copy-constructed replacement, assignment through other objects, self-assignment)
+#   qn qN qz qp | qd qo qO qe qa qb qc <list> | qr i | qw i (const members / reads, result dropped)
+#   cs r theta phi | cr alpha dim                        (earlier Spherical_Coordinates / Rotation_Matrix calls with this object)
+# and for a Matrix: pa ma pl mi <table> | tr | ms sm dv x | rs p q | cp eq se | sw i j | qd qi qo qt qn qs qT qe qp qm qb | qr i | qc j | qv <list>
+class _Exit(Exception):
+    pass
+
+
+def _div(a, b):
+    """IEEE division (python raises on a zero divisor)"""
+    if b == 0.0:
+        if a == 0.0 or math.isnan(a): return math.nan
+        return math.copysign(math.inf, a) * math.copysign(1.0, b)
+    return a / b
+
+
+def _sdot(a, b):
+    """Vector::Dot as the library sums it (left to right)"""
+    r = 0.0
+    for x, y in zip(a, b): r += x * y
+    return r
+
+
+_V_LIST = ("pa", "ma", "pl", "mi", "cx", "qd", "qo", "qO", "qe", "qa", "qb", "qc")
+_V_NONE = ("sa", "ss", "nz", "nd", "df", "cp", "eq", "se", "qn", "qN", "qz", "qp")
+
+
+def _vstep(v, st):
+    """the value of the object after one step (reference semantics, IEEE doubles); _Exit where the library terminates"""
+    k = st[0]; n = len(v)
+    if k == "st":
+        if st[1] >= n: raise _Exit
+        return v[:st[1]] + [st[2]] + v[st[1] + 1:]
+    if k in ("pa", "pl"):
+        if len(st[1]) != n: raise _Exit
+        return [a + b for a, b in zip(v, st[1])]
+    if k in ("ma", "mi"):
+        if len(st[1]) != n: raise _Exit
+        return [a - b for a, b in zip(v, st[1])]
+    if k == "sa": return [a + a for a in v]
+    if k == "ss": return [a - a for a in v]
+    if k in ("ms", "sm"): return [a * st[1] for a in v]
+    if k == "dv": return [_div(a, st[1]) for a in v]
+    if k == "rs": return v[:st[1]] + [0.0] * (st[1] - n)
+    if k == "as": return [st[2]] * st[1]
+    if k in ("nz", "nd"):
+        nr = math.sqrt(_sdot(v, v)); return [_div(a, nr) for a in v]
+    if k == "cx":
+        if n != 3 or len(st[1]) != 3: raise _Exit
+        return _cross(v, st[1])
+    if k == "df": return [0.0, 0.0, 0.0]
+    if k in ("cp", "eq", "se", "qn", "qN", "qz", "qp", "qe"): return v
+    if k in ("qd", "qo", "qO", "qa", "qb"):
+        if len(st[1]) != n: raise _Exit
+        return v
+    if k in ("qr", "qw"):
+        if st[1] >= n: raise _Exit
+        return v
+    if k == "qc":
+        if n != 3 or len(st[1]) != 3: raise _Exit
+        return v
+    if k == "cs":
+        # ev[0], ev[1] are always read; ev[2] unless axis.Norm() == 0
+        if n >= 3 or (n == 2 and math.sqrt(_sdot(v, v)) == 0.0): return v
+        raise _Exit
+    if k == "cr":
+        if st[2] == 2 or (st[2] == 3 and n == 3): return v
+        raise _Exit
+    raise ValueError("unknown vector step " + str(k))
+
+
+def _fmt_vstep(st):
+    k = st[0]
+    if k in _V_NONE: return k
+    if k in _V_LIST: return f"{k} {flist(st[1])}"
+    if k == "st": return f"st {st[1]} {hx(st[2])}"
+    if k in ("ms", "sm", "dv"): return f"{k} {hx(st[1])}"
+    if k == "rs": return f"rs {st[1]}"
+    if k == "as": return f"as {st[1]} {hx(st[2])}"
+    if k in ("qr", "qw"): return f"{k} {st[1]}"
+    if k == "cs": return f"cs {hx(st[1])} {hx(st[2])} {hx(st[3])}"
+    if k == "cr": return f"cr {hx(st[1])} {st[2]}"
+    raise ValueError(k)
+
+
+def _fmt_vhist(steps): return f"{len(steps)}" + "".join(" " + _fmt_vstep(st) for st in steps)
+
+
+class _Cur:
+    def __init__(self, line): self.t = parse_vals(line); self.i = 0
+    def nxt(self):
+        x = self.t[self.i]; self.i += 1; return x
+    def num(self): return float(self.nxt())
+    def int(self): return int(self.nxt())
+    def lst(self): return [self.num() for _ in range(self.int())]
+    def tab(self): return [self.lst() for _ in range(self.int())]
+
+
+def _rd_vstep(cur):
+    k = cur.nxt()
+    if k in _V_NONE: return (k,)
+    if k in _V_LIST: return (k, cur.lst())
+    if k == "st": return (k, cur.int(), cur.num())
+    if k in ("ms", "sm", "dv"): return (k, cur.num())
+    if k == "rs": return (k, cur.int())
+    if k == "as": return (k, cur.int(), cur.num())
+    if k in ("qr", "qw"): return (k, cur.int())
+    if k == "cs": return (k, cur.num(), cur.num(), cur.num())
+    if k == "cr": return (k, cur.num(), cur.int())
+    raise ValueError("unknown vector step " + str(k))
+
+
+_M_TAB = ("pa", "ma", "pl", "mi")
+_M_NONE = ("tr", "cp", "eq", "se", "qd", "qi", "qo", "qt", "qn", "qs", "qT", "qe", "qp", "qm", "qb")
+
+
+def _rd_mstep(cur):
+    k = cur.nxt()
+    if k in _M_NONE: return (k,)
+    if k in _M_TAB: return (k, cur.tab())
+    if k in ("ms", "sm", "dv"): return (k, cur.num())
+    if k in ("rs", "sw"): return (k, cur.int(), cur.int())
+    if k in ("qr", "qc"): return (k, cur.int())
+    if k == "qv": return (k, cur.lst())
+    raise ValueError("unknown matrix step " + str(k))
+
+
+def _fmt_tab(Z): return f"{len(Z)} " + " ".join(flist(r) for r in Z)
+
+
+def _fmt_mstep(st):
+    k = st[0]
+    if k in _M_NONE: return k
+    if k in _M_TAB: return f"{k} {_fmt_tab(st[1])}"
+    if k in ("ms", "sm", "dv"): return f"{k} {hx(st[1])}"
+    if k in ("rs", "sw"): return f"{k} {st[1]} {st[2]}"
+    if k in ("qr", "qc"): return f"{k} {st[1]}"
+    if k == "qv": return f"qv {flist(st[1])}"
+    raise ValueError(k)
+
+
+def _fmt_mhist(steps): return f"{len(steps)}" + "".join(" " + _fmt_mstep(st) for st in steps)
+
+
+def _maxabs(M): return max([abs(x) for r in M for x in r] + [0.0])
+
+
+def _mhist_effect(M, steps):
+    """(matrix after the history, a-priori bound on the rounding the history adds to an entry): every + - * / rounds its result
+    by at most EPS |result|; a scaling scales the error made before it"""
+    extra = 0.0
+    for st in steps:
+        k = st[0]
+        if k in ("pa", "pl", "ma", "mi"):
+            Z = st[1]
+            if len(Z) != len(M) or (Z and M and len(Z[0]) != len(M[0])): raise _Exit
+            sg = 1.0 if k in ("pa", "pl") else -1.0
+            M = [[a + sg * b for a, b in zip(ra, rb)] for ra, rb in zip(M, Z)]
+            extra += EPS * _maxabs(M)
+        elif k == "tr":
+            M = [list(col) for col in zip(*M)]
+        elif k in ("ms", "sm"):
+            M = [[st[1] * a for a in r] for r in M]; extra = extra * abs(st[1]) + EPS * _maxabs(M)
+        elif k == "dv":
+            M = [[_div(a, st[1]) for a in r] for r in M]; extra = _div(extra, abs(st[1])) + EPS * _maxabs(M)
+        elif k == "rs":
+            p, q = st[1], st[2]
+            M = [(r[:q] + [0.0] * (q - len(r))) for r in (M[:p] + [[] for _ in range(p - len(M))])]
+    return M, extra
+
+
+@functools.lru_cache(maxsize=8)
+def _decode(line):
+    """the request as the reference sees it: the operation, its scalar arguments, the VALUE of every Vector argument after its history
+    ('exit': the history itself is a request the library refuses), the histories of the multiplied matrices"""
+    cur = _Cur(line); op = cur.nxt(); hist = False
+    if op == "hist": hist = True; op = cur.nxt()
+    d = {"op": op, "hist": hist, "exit": False, "nsteps": 0}
+
+    def history(v):
+        if not hist: return v
+        k = cur.int(); d["nsteps"] += k
+        for _ in range(k): v = _vstep(v, _rd_vstep(cur))
+        return v
+
+    def vec(): return history(cur.lst())
+    def vec3(): return history([cur.num(), cur.num(), cur.num()])
+
+    def mh():
+        if not hist: return ()
+        k = cur.int(); d["nsteps"] += k
+        return tuple(_rd_mstep(cur) for _ in range(k))
+    try:
+        if op == "rot": d.update(alpha=cur.num(), dim=cur.int()); d["axis"] = vec()
+        elif op == "rotdef": d.update(alpha=cur.num(), dim=cur.int(), axis=[0.0, 0.0, 1.0])
+        elif op == "rotcomp": d.update(a=cur.num(), b=cur.num()); d["axis"] = vec3(); d["mha"] = mh(); d["mhb"] = mh()
+        elif op in ("rotapply", "rotback"): d.update(alpha=cur.num()); d["axis"] = vec3(); d["v"] = vec3(); d["mh"] = mh()
+        elif op == "sph": d.update(r=cur.num(), theta=cur.num(), phi=cur.num())
+        elif op in ("spha", "sphang"): d.update(r=cur.num(), theta=cur.num(), phi=cur.num()); d["axis"] = vec()
+        elif op == "sphad": d.update(r=cur.num(), theta=cur.num(), phi=cur.num(), h=cur.num()); d["axis"] = vec3()
+        elif op == "sphrot":
+            d.update(r=cur.num(), theta=cur.num(), phi=cur.num(), alpha=cur.num()); d["axis"] = vec3()
+            d["usteps"] = tuple(_rd_vstep(cur) for _ in range(cur.int())) if hist else ()
+            d["nsteps"] += len(d["usteps"])
+        elif op == "rotsph": d.update(alpha=cur.num(), r=cur.num(), theta=cur.num(), phi=cur.num()); d["axis"] = vec3(); d["mh"] = mh()
+        elif op in ("angle", "cross"): d["a"] = vec(); d["b"] = vec()
+    except _Exit:
+        d["exit"] = True
+    return d
+
+
+# ---- generators of histories
+def _scale_of(v):
+    m = max([abs(x) for x in v if math.isfinite(x)] + [0.0])
+    return m if 1e-200 < m < 1e200 else 1.0
+
+
+def _other(rng, v, n=None):
+    """a second operand of the size of v (or n) and of comparable magnitude"""
+    n = len(v) if n is None else n
+    sc = _scale_of(v) * rng.choice([1.0, 1.0, 0.1, 10.0, 1e-3, 1e3])
+    return [rng.choice([rng.gauss(0, 1), rng.gauss(0, 1), float(rng.randint(-3, 3))]) * sc for _ in range(n)]
+
+
+def _question(rng, v):
+    """a step that leaves the value alone: const members, reads, copies, earlier calls of the property's own functions"""
+    n = len(v)
+    pool = ["qn", "qn", "qN", "qN", "qa", "qb", "qd", "qo", "qO", "qe", "qz", "qp", "cp", "cp", "eq", "se", "cr2"]
+    if n >= 1: pool += ["qr", "qw", "qw"]
+    if n == 3: pool += ["qc", "cr3", "cr3", "cr3"]
+    if n >= 3: pool += ["cs", "cs", "cs"]
+    k = rng.choice(pool)
+    if k in ("qa", "qb", "qd", "qo", "qO", "qe", "qc"): return (k, _other(rng, v))
+    if k in ("qr", "qw"): return (k, rng.randrange(n))
+    if k == "cs": return ("cs", 10 ** rng.uniform(-3, 3), _theta(rng), _phi(rng))
+    if k == "cr2": return ("cr", _angle(rng), 2)
+    if k == "cr3": return ("cr", _angle(rng), 3)
+    return (k,)
+
+
+def _change(rng, v):
+    """a step that changes the object in place or assigns a new value to it"""
+    n = len(v)
+    pool = ["pa", "pa", "pa", "ma", "ma", "ma", "pl", "mi", "sa", "ms", "sm", "dv", "rs", "as", "df"]
+    if n >= 1: pool += ["st", "st", "st"]
+    if n == 3: pool += ["cx"]
+    nr = math.sqrt(_sdot(v, v)) if all(math.isfinite(x) for x in v) else 0.0
+    if 1e-150 < nr < 1e150: pool += ["nz", "nz", "nd"]
+    if rng.random() < 0.05: pool += ["ss"]
+    k = rng.choice(pool)
+    if k in ("pa", "ma", "pl", "mi", "cx"): return (k, _other(rng, v))
+    if k == "st": return ("st", rng.randrange(n), rng.gauss(0, 1) * _scale_of(v))
+    if k in ("ms", "sm", "dv"): return (k, rng.choice([2.0, 0.5, -1.0, 3.0, 1e3, 1e-3, rng.uniform(0.1, 10.0), -rng.uniform(0.1, 10.0)]))
+    if k == "rs": return ("rs", rng.choice([3, 3, 2, 4, 5, 1, 6]))
+    if k == "as": return ("as", rng.choice([3, 3, 2, 4, 5]), rng.gauss(0, 1) * _scale_of(v))
+    return (k,)
+
+
+def _arrive(rng, v, goal):
+    """steps that take the 3-component object v to (within rounding of) goal, by compound assignment, by assignment of a sum, or by writes"""
+    k = rng.choice(["pa", "pa", "pa", "ma", "ma", "ma", "pl", "mi", "st", "st"])
+    if k in ("pa", "pl"): return [(k, [g - x for g, x in zip(goal, v)])]
+    if k in ("ma", "mi"): return [(k, [x - g for g, x in zip(goal, v)])]
+    order = [0, 1, 2]; rng.shuffle(order)
+    return [("st", i, goal[i]) for i in order]
+
+
+def _steer(rng, v, target):
+    """the last value-changing steps of a history: whatever the object was, it ends (within rounding) at target"""
+    steps = []
+
+    def run(sts):
+        nonlocal v
+        for st in sts: v = _vstep(v, st)
+        steps.extend(sts)
+    if len(v) != 3 or not all(math.isfinite(x) and abs(x) < 1e150 for x in v):
+        run([rng.choice([("rs", 3), ("as", 3, rng.gauss(0, 1)), ("df",)])])
+        if not all(math.isfinite(x) and abs(x) < 1e150 for x in v): run([("as", 3, rng.gauss(0, 1))])
+    how = rng.choice(["direct", "direct", "direct", "direct", "scale", "divide", "double", "resize"])
+    if how == "direct": run(_arrive(rng, v, target))
+    elif how == "scale":
+        s = rng.choice([2.0, 0.5, -1.0, 3.0, 1e3, 1e-3, rng.uniform(0.1, 10.0)])
+        run(_arrive(rng, v, [_div(t, s) for t in target])); run([(rng.choice(["ms", "sm"]), s)])
+    elif how == "divide":
+        s = rng.choice([2.0, 0.5, -1.0, 3.0, 1e3, 1e-3, rng.uniform(0.1, 10.0)])
+        run(_arrive(rng, v, [t * s for t in target])); run([("dv", s)])
+    elif how == "double":
+        run(_arrive(rng, v, [t / 2 for t in target])); run([("sa",)])
+    else:
+        run([("rs", 5), ("st", 3, rng.gauss(0, 1)), ("st", 4, rng.gauss(0, 1))])
+        w = [g - x for g, x in zip(target, v)] + [rng.gauss(0, 1), rng.gauss(0, 1)]
+        run([(rng.choice(["pa", "pl"]), w), ("rs", 3)])
+    return steps, v
+
+
+def _valid_axis(v):
+    if len(v) != 3 or not all(math.isfinite(x) for x in v): return False
+    L = math.sqrt(_dot(v, v))
+    return 0.999e-6 <= L <= 1.001e6
+
+
+def _vhist(rng, target=None, accept=_valid_axis, three=False):
+    """(start, steps, final value): an object constructed from `start` whose history ends at `target` (within rounding), or, without a
+    target, wherever the random history leads (accepted when it is an argument inside the property's quantifier)"""
+    for _ in range(40):
+        n0 = 3 if three else rng.choice([3, 3, 3, 3, 3, 2, 4, 5, 1])      # three: the harness constructs Vector({a, b, c})
+        sc = _scale_of(target) if target is not None else 10 ** rng.uniform(-3, 3)
+        if target is not None and rng.random() < 0.3: start = list(target) if n0 == 3 else (list(target) + [1.0, 2.0])[:n0]
+        else: start = [rng.choice([rng.gauss(0, 1), 0.0, 1.0]) * sc for _ in range(n0)]
+        if n0 == 3 and rng.random() < 0.25: start = rng.choice([[0.0, 0.0, sc], [0.0, 0.0, -sc], [sc, 0.0, 0.0], [0.0, sc, 0.0]])
+        v = list(start); steps = []
+        try:
+            for _ in range(rng.choice([0, 1, 1, 2, 2, 3, 5])):
+                st = _question(rng, v) if rng.random() < 0.6 else _change(rng, v)
+                v = _vstep(v, st); steps.append(st)
+            if target is not None:
+                # at least one question before the last change of value: what the object knew about itself is then out of date
+                if rng.random() < 0.8 and len(v) >= 1:
+                    for _ in range(rng.choice([1, 1, 2])):
+                        st = _question(rng, v); v = _vstep(v, st); steps.append(st)
+                sts, v = _steer(rng, v, list(target)); steps += sts
+            for _ in range(rng.choice([0, 0, 0, 1, 2])):
+                st = _question(rng, v); v = _vstep(v, st); steps.append(st)
+        except _Exit:
+            continue
+        if accept(v) and (target is None or all(abs(a - b) <= 1e-9 * max(_scale_of(target), 1e-300) for a, b in zip(v, target))):
+            return start, steps, v
+    t = list(target) if target is not None else [1.0, 2.0, 2.0]
+    return t, [], t
+
+
+def _mhist(rng, n=3):
+    """a history of a returned n x n rotation matrix that leaves its value alone (up to the rounding of += Z ... -= Z):
+    copies, assignments, writes of an entry's own value, questions, balanced pairs of changes"""
+    def questions(square=True):
+        out = []
+        for _ in range(rng.choice([0, 0, 1, 1, 2])):
+            k = rng.choice(["qd", "qd", "qo", "qt", "qn", "qs", "qT", "qe", "qp", "qm", "qb", "qr", "qc", "qv", "cp", "eq", "se", "sw"])
+            if k in ("qr", "qc"): out.append((k, rng.randrange(n)))
+            elif k == "qv": out.append((k, [rng.gauss(0, 1) for _ in range(n)]))
+            elif k == "sw": out.append((k, rng.randrange(n), rng.randrange(n)))
+            else: out.append((k,))
+        return out
+    steps = []
+    for _ in range(rng.choice([1, 1, 2, 3])):
+        b = rng.choice(["q", "q", "inv", "addsub", "addsub", "subadd", "plmi", "trtr", "scale", "resize", "copy"])
+        if b == "q": steps += questions() or [("qd",)]
+        elif b == "inv": steps += [("qi",)]
+        elif b in ("addsub", "subadd", "plmi"):
+            Z = [[rng.choice([rng.uniform(-1, 1), rng.uniform(-1, 1), float(rng.randint(-2, 2)), 0.0]) for _ in range(n)] for _ in range(n)]
+            a, m = {"addsub": ("pa", "ma"), "subadd": ("ma", "pa"), "plmi": ("pl", "mi")}[b]
+            steps += [(a, Z)] + questions() + [(m, Z)]
+        elif b == "trtr": steps += [("tr",)] + questions() + [("tr",)]
+        elif b == "scale":
+            x = rng.choice([2.0, 0.5, -1.0, 4.0, 1.0])
+            steps += rng.choice([[("ms", x), ("dv", x)], [("sm", x), ("dv", x)], [("dv", x), ("ms", x)]])
+        elif b == "resize": steps += rng.choice([[("rs", n, n)], [("rs", n + 1, n + 2), ("rs", n, n)], [("rs", n, n + 1), ("qT",), ("rs", n, n)]])
+        else: steps += [(rng.choice(["cp", "eq", "se"]),), ("sw", rng.randrange(n), rng.randrange(n))]
+    return steps
+
+
+def _v3(v): return " ".join(hx(x) for x in v)
+
+
+def _hist_cases(rng, axis, tag, kinds):
+    """requests whose argument objects have a past; the value each object has when the call sees it is the reference's business"""
+    cs = []
+
+    def obj(target, three):
+        if rng.random() < 0.15: return _vhist(rng, None, three=three)
+        return _vhist(rng, target, three=three)
+    for kind in kinds:
+        st, hs, fin = obj(axis, kind not in ("rot", "spha", "sphang"))
+        nrm = math.sqrt(_dot(fin, fin)); n = [x / nrm for x in fin]
+        tags = (kind, tag, "history")
+        if kind == "rot":
+            cs.append(Case(f"hist rot {hx(_angle(rng))} 3 {flist(st)} {_fmt_vhist(hs)}", tags))
+        elif kind == "rotcomp":
+            a, b = _angle(rng), _angle(rng)
+            if abs(a + b) > 4 * PI: b = -b
+            cs.append(Case(f"hist rotcomp {hx(a)} {hx(b)} {_v3(st)} {_fmt_vhist(hs)} {_fmt_mhist(_mhist(rng))} {_fmt_mhist(_mhist(rng))}", tags))
+        elif kind in ("rotapply", "rotback"):
+            v = _perp(rng, n) if rng.random() < 0.7 else [rng.gauss(0, 1) for _ in range(3)]
+            vs, vh, vf = _vhist(rng, v, accept=lambda w: len(w) == 3 and all(math.isfinite(x) for x in w), three=True)
+            cs.append(Case(f"hist {kind} {hx(_angle(rng))} {_v3(st)} {_fmt_vhist(hs)} {_v3(vs)} {_fmt_vhist(vh)} {_fmt_mhist(_mhist(rng))}", tags))
+        elif kind == "rotsph":
+            r = 10 ** rng.uniform(-3, 3)
+            cs.append(Case(f"hist rotsph {hx(_angle(rng))} {hx(r)} {hx(_theta(rng))} {hx(_phi(rng))} {_v3(st)} {_fmt_vhist(hs)} {_fmt_mhist(_mhist(rng))}", tags))
+        elif kind == "sphrot":
+            r = 10 ** rng.uniform(-3, 3); th = _theta(rng); ph = _phi(rng)
+            # the returned vector is asked, changed by moderate amounts and asked again before it serves as an axis
+            u = [r * x for x in n]; us = []
+            for _ in range(rng.choice([0, 1, 2, 3])):
+                q = _question(rng, u) if rng.random() < 0.6 else rng.choice([("pa", _other(rng, u)), ("ma", _other(rng, u)), ("sa",), ("ms", 2.0), ("st", rng.randrange(3), r * rng.gauss(0, 1))])
+                us.append(q)
+            cs.append(Case(f"hist sphrot {hx(r)} {hx(th)} {hx(ph)} {hx(_angle(rng))} {_v3(st)} {_fmt_vhist(hs)} {_fmt_vhist(us)}", tags))
+        elif kind in ("spha", "sphang"):
+            r = 10 ** rng.uniform(-3, 3)
+            cs.append(Case(f"hist {kind} {hx(r)} {hx(_theta(rng))} {hx(_phi(rng))} {flist(st)} {_fmt_vhist(hs)}", tags))
+        elif kind == "sphad":
+            r = 10 ** rng.uniform(-3, 3)
+            h = rng.choice([1e-3, 1e-2, 0.1, 0.5, 1.0, rng.uniform(1e-3, 1.5)])
+            cs.append(Case(f"hist sphad {hx(r)} {hx(_theta(rng))} {hx(_phi(rng))} {hx(h)} {_v3(st)} {_fmt_vhist(hs)}", tags))
+    return cs
+
+
+def _angle_pairs(rng, n):
+    """pairs of 3-vectors for Angle: generic, perpendicular, and at a geometric ladder of distances from parallel and antiparallel"""
+    out = []
+    for _ in range(n):
+        a = [rng.gauss(0, 1) for _ in range(3)]
+        if rng.random() < 0.2: a[rng.randrange(3)] = 0.0
+        if not any(a): a = [1.0, 2.0, 2.0]
+        La, Lb = (10 ** rng.uniform(-6, 6) for _ in range(2))
+        na = math.sqrt(_dot(a, a)); a = [La * x / na for x in a]
+        k = rng.random()
+        if k < 0.3: b = [rng.gauss(0, 1) for _ in range(3)]; tag = "angle-generic"
+        elif k < 0.4: b = _perp(rng, [x / La for x in a]); tag = "angle-perpendicular"
+        elif k < 0.55: b = [x * rng.choice([1.0, 2.0, 0.5, 3.0, -1.0, -2.0, -0.3]) for x in a]; tag = "angle-parallel"
+        else:
+            d = 10 ** rng.uniform(-17, -1) if rng.random() < 0.7 else rng.choice([1e-16, 1e-12, 1e-9, 1e-8, 3e-8, 1e-7, 1e-6, 1e-3])
+            p = _perp(rng, [x / La for x in a]); npn = math.sqrt(_dot(p, p)); sg = rng.choice([1.0, -1.0])
+            b = [sg * x / La + d * y / npn for x, y in zip(a, p)]; tag = "angle-near-parallel"
+        nb = math.sqrt(_dot(b, b)); b = [Lb * x / nb for x in b]
+        out.append((a, b, tag))
+    return out
+
 
 def generate(rng, tier):
     cs = []
     big = tier != "quick"
-    nrand = 6000 if big else 300
-    reps = 6 if big else 3
+    nrand = 6000 if big else 200
+    reps = 6 if big else 2
     # ---- 2-D rotations
     for _ in range(4000 if big else 300):
         cs.append(Case(f"rot {hx(_angle(rng))} 2 0", ("rot2",)))
     for a in (0.0, PI / 2, PI, -PI, 4 * PI, -4 * PI, PI / 4):
         cs.append(Case(f"rot {hx(a)} 2 3 0x0p+0 0x0p+0 0x1p+0", ("rot2",)))
+    # ---- the default axis: Rotation_Matrix(alpha, dim)
+    for _ in range(600 if big else 60):
+        cs.append(Case(f"rotdef {hx(_angle(rng))} {rng.choice([2, 3, 3, 3])}", ("rot-default-axis",)))
+    for dim in (0, 1, 4, -3):
+        cs.append(Case(f"rotdef {hx(0.3)} {dim}", ("rot-guard",)))
     # ---- 3-D rotations
     for axis, tag in _axes(rng, nrand):
         for _ in range(reps):
@@ -104,10 +540,12 @@ def generate(rng, tier):
             cs.append(Case(f"rot {hx(a)} 3 {flist(axis)}", ("rot3", tag)))
         a, b = _angle(rng), _angle(rng)
         if abs(a + b) > 4 * PI: b = -b      # the composed angle stays in the quantified range
-        cs.append(Case(f"rotcomp {hx(a)} {hx(b)} " + " ".join(hx(x) for x in axis), ("rotcomp", tag)))
+        cs.append(Case(f"rotcomp {hx(a)} {hx(b)} " + _v3(axis), ("rotcomp", tag)))
         nrm = math.sqrt(_dot(axis, axis)); n = [x / nrm for x in axis]
         v = _perp(rng, n) if rng.random() < 0.8 else [rng.gauss(0, 1) for _ in range(3)]
-        cs.append(Case(f"rotapply {hx(_angle(rng))} " + " ".join(hx(x) for x in axis) + " " + " ".join(hx(x) for x in v), ("rotapply", tag)))
+        cs.append(Case(f"{rng.choice(['rotapply', 'rotback'])} {hx(_angle(rng))} " + _v3(axis) + " " + _v3(v), ("rotapply", tag)))
+        r = 10 ** rng.uniform(-3, 3)
+        cs.append(Case(f"rotsph {hx(_angle(rng))} {hx(r)} {hx(_theta(rng))} {hx(_phi(rng))} " + _v3(axis), ("rotsph", tag)))
     # ---- guards of Rotation_Matrix
     for dim in (0, 1, 4, -3, 5):
         cs.append(Case(f"rot {hx(0.3)} {dim} 3 0x0p+0 0x0p+0 0x1p+0", ("rot-guard",)))
@@ -125,9 +563,32 @@ def generate(rng, tier):
             cs.append(Case(f"spha {hx(r)} {hx(_theta(rng))} {hx(_phi(rng))} {flist(axis)}", ("spha", tag)))
         r = 10 ** rng.uniform(-3, 3); th = _theta(rng); ph = _phi(rng)
         h = rng.choice([1e-3, 1e-2, 0.1, 0.5, 1.0, rng.uniform(1e-3, 1.5)])
-        cs.append(Case(f"sphad {hx(r)} {hx(th)} {hx(ph)} {hx(h)} " + " ".join(hx(x) for x in axis), ("sphad", tag)))
+        cs.append(Case(f"sphad {hx(r)} {hx(th)} {hx(ph)} {hx(h)} " + _v3(axis), ("sphad", tag)))
+        r = 10 ** rng.uniform(-3, 3)
+        if rng.random() < 0.5: cs.append(Case(f"sphang {hx(r)} {hx(_theta(rng))} {hx(_phi(rng))} {flist(axis)}", ("sphang", tag)))
+        else: cs.append(Case(f"sphrot {hx(r)} {hx(_theta(rng))} {hx(_phi(rng))} {hx(_angle(rng))} " + _v3(axis), ("sphrot", tag)))
     for ax in ([0.0, 0.0, 0.0], [0.0, 0.0], [], [1.0], [1.0, 0.0], [0.0, 1.0], [0.0, 0.0, 2.0, 0.0], [0.0, 0.0, -2.0, 0.0], [1.0, 2.0, 3.0, 4.0]):
         cs.append(Case(f"spha {hx(2.0)} {hx(0.3)} {hx(0.4)} {flist(ax)}", ("spha-guard",)))
+    # ---- argument objects with a call history (same axes: coordinate directions, near the poles, every length)
+    rk = ["rot", "rot", "rotcomp", "rotapply", "rotback", "rotsph", "sphrot"]; sk = ["spha", "spha", "sphad", "sphang"]
+    for axis, tag in _axes(rng, 4000 if big else 120):
+        cs += _hist_cases(rng, axis, tag, [rng.choice(rk), rng.choice(sk)] if not big else [rng.choice(rk), rng.choice(rk), rng.choice(sk), rng.choice(sk)])
+    # histories that end in an object the library must refuse (or, for a zero 2-vector, may accept)
+    z3 = flist([0.0, 0.0, 1.0])
+    for hs in ([("rs", 2)], [("qn",), ("rs", 4)], [("as", 2, 1.0)], [("pa", [1.0, 0.0])], [("st", 3, 1.0)], [("qr", 3)], [("qd", [1.0, 2.0])],
+               [("rs", 2), ("cs", 1.0, 0.3, 0.4)], [("rs", 2), ("cr", 0.3, 3)], [("rs", 2), ("cx", [1.0, 0.0, 0.0])], [("rs", 2), ("rs", 3)],
+               [("ss",), ("rs", 2)], [("ss",), ("rs", 2), ("cs", 1.0, 0.3, 0.4)], [("rs", 2), ("cr", 0.3, 2), ("rs", 3), ("st", 2, 0.5)]):
+        cs.append(Case(f"hist rot {hx(0.3)} 3 {z3} {_fmt_vhist(hs)}", ("hist-guard",)))
+        cs.append(Case(f"hist spha {hx(2.0)} {hx(0.3)} {hx(0.4)} {z3} {_fmt_vhist(hs)}", ("hist-guard",)))
+    # ---- Angle
+    for a, b, tag in _angle_pairs(rng, 4000 if big else 250):
+        if rng.random() < 0.25:
+            sa, ha, _ = _vhist(rng, a); sb, hb, _ = _vhist(rng, b)
+            cs.append(Case(f"hist angle {flist(sa)} {_fmt_vhist(ha)} {flist(sb)} {_fmt_vhist(hb)}", ("angle", tag, "history")))
+        else: cs.append(Case(f"angle {flist(a)} {flist(b)}", ("angle", tag)))
+    for a, b in (([1.0, 0.0], [0.0, 1.0]), ([1.0, 2.0, 3.0, 4.0], [4.0, -3.0, 2.0, 1.0]), ([1.0], [-2.0])):
+        cs.append(Case(f"angle {flist(a)} {flist(b)}", ("angle", "angle-other-dimension")))
+    cs.append(Case(f"angle {flist([1.0, 0.0])} {flist([1.0, 0.0, 0.0])}", ("angle-guard",)))
     # ---- Cross
     for _ in range(3000 if big else 200):
         a = [rng.gauss(0, 1) * 10 ** rng.uniform(-3, 3) for _ in range(3)]
@@ -135,7 +596,11 @@ def generate(rng, tier):
         if k < 0.15: b = [x * rng.choice([1.0, 2.0, -1.0, 0.5, -3.0]) for x in a]
         elif k < 0.25: b = _perp(rng, [x / math.sqrt(_dot(a, a)) for x in a])
         else: b = [rng.gauss(0, 1) * 10 ** rng.uniform(-3, 3) for _ in range(3)]
-        cs.append(Case(f"cross {flist(a)} {flist(b)}", ("cross",)))
+        if rng.random() < 0.15:
+            acc = lambda w: len(w) == 3 and all(math.isfinite(x) for x in w)
+            sa, ha, _ = _vhist(rng, a, accept=acc); sb, hb, _ = _vhist(rng, b, accept=acc)
+            cs.append(Case(f"hist cross {flist(sa)} {_fmt_vhist(ha)} {flist(sb)} {_fmt_vhist(hb)}", ("cross", "history")))
+        else: cs.append(Case(f"cross {flist(a)} {flist(b)}", ("cross",)))
     cs.append(Case(f"cross {flist([1.0, 0.0])} {flist([1.0, 0.0, 0.0])}", ("cross-guard",)))
     return cs
 
@@ -150,25 +615,20 @@ def _polar_distance(axis):
     n = _unit(axis); return math.hypot(n[0], n[1])
 
 
-def _parse(c):
-    t = c.line.split(); op = t[0]; v = parse_vals(c.line)[1:]
-    return op, v
-
-
 def nontrivial(c, io):
-    op, v = _parse(c)
+    d = _decode(c.line); op = d["op"]
     def ax_nt(axis):
-        if len(axis) != 3 or not any(axis): return False
+        if len(axis) != 3 or not any(axis) or not all(math.isfinite(x) for x in axis): return False
         L = math.sqrt(_dot(axis, axis))
-        return _polar_distance(axis) < 1e-6 or not (0.1 <= L <= 10.0)
+        return L > 0 and (_polar_distance(axis) < 1e-6 or not (0.1 <= L <= 10.0))
     if io.startswith("EXIT"): return "guard" in " ".join(c.tags)
-    if op == "rot":
-        alpha, dim, n = v[0], v[1], v[2]; axis = v[3:3 + n]
-        return dim == 3 and (ax_nt(axis) or abs(alpha) > 2 * PI) or (dim == 2 and abs(alpha) > 2 * PI)
-    if op == "rotcomp": return ax_nt(v[2:5]) or abs(v[0]) > 2 * PI or abs(v[1]) > 2 * PI
-    if op == "rotapply": return ax_nt(v[1:4]) or abs(v[0]) > 2 * PI
-    if op == "spha": return ax_nt(v[4:4 + v[3]])
-    if op == "sphad": return ax_nt(v[4:7])
+    if d["exit"]: return False
+    if op in ("cross", "angle", "sph"): return False
+    if d["nsteps"] > 0: return True
+    if op in ("rot", "rotdef"): return (d["dim"] == 3 and (ax_nt(d["axis"]) or abs(d["alpha"]) > 2 * PI)) or (d["dim"] == 2 and abs(d["alpha"]) > 2 * PI)
+    if op == "rotcomp": return ax_nt(d["axis"]) or abs(d["a"]) > 2 * PI or abs(d["b"]) > 2 * PI
+    if op in ("rotapply", "rotback", "rotsph", "sphrot"): return ax_nt(d["axis"]) or abs(d["alpha"]) > 2 * PI
+    if op in ("spha", "sphad", "sphang"): return ax_nt(d["axis"])
     return False
 
 
@@ -177,10 +637,11 @@ def _mat(vals):
     return [[e[i * cdim + j] for j in range(cdim)] for i in range(r)], vals[2 + r * cdim:]
 
 
-def _rot_checks(op, R, alpha, n, out, tag=""):
+def _rot_checks(op, R, alpha, n, out, tag="", extra=0.0):
     """orthogonality, determinant, fixed axis for a 3x3 matrix; slack 64 eps: every entry is a sum of <= 3 products of
-    numbers of magnitude <= 1, each carrying <= 8 rounding errors, so R^T R, det and R n are off by < 64 eps"""
-    sl = 64 * EPS
+    numbers of magnitude <= 1, each carrying <= 8 rounding errors, so R^T R, det and R n are off by < 64 eps
+    (extra: what the histories of multiplied matrices add, see _mhist_effect)"""
+    sl = 64 * EPS + extra
     for i in range(3):
         for j in range(3):
             g = math.fsum(R[k][i] * R[k][j] for k in range(3))
@@ -199,15 +660,78 @@ def _rodrigues(alpha, n, v):
     return [c * v[i] + s * nxv[i] + (1.0 - c) * nv * n[i] for i in range(3)]
 
 
+def _rot3_matrix_checks(R, alpha, axis, out, note=""):
+    """the clauses for a matrix returned by Rotation_Matrix(alpha, 3, axis)"""
+    if len(R) != 3 or len(R[0]) != 3: out.append(("rot:shape", "3-D rotation is not 3x3")); return
+    n = _unit(axis)
+    _rot_checks("rot3", R, alpha, n, out, note)
+    # the entries are Rodrigues' formula: images of the basis vectors
+    for j in range(3):
+        e = [1.0 if k == j else 0.0 for k in range(3)]
+        ref = _rodrigues(alpha, n, e)
+        if not all(abs(R[i][j] - ref[i]) <= 64 * EPS for i in range(3)):
+            out.append(("rot3:rodrigues", f"column {j} of R is {[R[i][j] for i in range(3)]!r}, Rodrigues' formula gives {ref!r}{note}")); break
+
+
+def _matrix_history_slack(alpha, axis, steps):
+    """None when the history of a multiplied matrix does not leave its value alone (then the clauses say nothing about the product),
+    else the a-priori bound on what it adds to an entry"""
+    if not steps: return 0.0
+    n = _unit(axis)
+    R0 = [[_rodrigues(alpha, n, [1.0 if k == j else 0.0 for k in range(3)])[i] for j in range(3)] for i in range(3)]
+    try: R1, extra = _mhist_effect(R0, steps)
+    except _Exit: return None
+    if len(R1) != 3 or any(len(r) != 3 for r in R1): return None
+    if not all(abs(R1[i][j] - R0[i][j]) <= 2 * extra for i in range(3) for j in range(3)): return None
+    return extra
+
+
+def _spha_checks(op, r, th, axis, w, out):
+    n = _unit(axis)
+    # slack 64 eps r: each component is a sum of <= 3 terms of magnitude <= r with <= 8 roundings each
+    nr = math.sqrt(_dot(w, w))
+    if not abs(nr - r) <= 64 * EPS * r: out.append(("spha:norm", f"norm {nr!r} instead of r = {r!r} (axis {axis!r})"))
+    ct = _dot(w, n) / r
+    if not abs(ct - math.cos(th)) <= 64 * EPS: out.append(("spha:polar-angle", f"unit . axis = {ct!r}, cos(theta) = {math.cos(th)!r} (axis {axis!r})"))
+    # the component perpendicular to the axis has length r sin(theta) (polar angle theta, seen where the cosine is flat)
+    perp = [w[i] - _dot(w, n) * n[i] for i in range(3)]; sp = math.sqrt(_dot(perp, perp)) / r
+    if not abs(sp - math.sin(th)) <= 64 * EPS:
+        out.append(("spha:polar-sine", f"|u - (u.ev) ev| / r = {sp!r}, sin(theta) = {math.sin(th)!r} (theta {th!r}, axis {axis!r})"))
+
+
+def _acos_interval(c, delta):
+    """the angles whose cosine is within delta of c"""
+    return math.acos(min(1.0, c + delta)), math.acos(max(-1.0, c - delta))
+
+
+def _angle_checks(sig, got, a, b, out, what, c_claim=None, delta=16 * EPS):
+    """Angle(a, b) = acos(a.b / (|a| |b|)): the quotient carries <= 8 eps of rounding (3 eps from the sum of three products, 2 eps from
+    each norm, 1 eps from the product and the quotient), the reference cosine 2 eps more, acos one ulp (< 8 eps absolute): the result must lie
+    in the interval of angles whose cosine is within 16 eps of the true one.  c_claim/delta: the cosine the property claims and its slack."""
+    if c_claim is None:
+        c = _dot(a, b) / (math.sqrt(_dot(a, a)) * math.sqrt(_dot(b, b)))
+    else: c = c_claim
+    lo, hi = _acos_interval(c, delta)
+    if math.isnan(got):
+        region = "parallel" if (abs(c) + delta >= 1.0) else "generic"
+        out.append((f"{sig}:nan:{region}", f"{what} is NaN for vectors at an angle of {math.acos(max(-1.0, min(1.0, c)))!r} ({a!r}, {b!r})"))
+    elif not (lo - 8 * EPS <= got <= hi + 8 * EPS):
+        out.append((f"{sig}:value", f"{what} = {got!r}, the angle between {a!r} and {b!r} lies in [{lo!r}, {hi!r}]"))
+
+
 def predicates(c, io):
     """S4: the property's own clauses evaluated on the implementation's output."""
     out = []
-    op, v = _parse(c)
     if io.startswith(("CRASH", "SANITIZER", "TIMEOUT", "HARNESSERR")): return out
+    d = _decode(c.line); op = d["op"]
     o = parse_vals(io)
     exited = io.startswith("EXIT")
-    if op == "rot":
-        alpha, dim, na = v[0], v[1], v[2]; axis = v[3:3 + na]
+    if d["exit"]:
+        # the history of an argument object is itself a request the library refuses (index / dimension guards)
+        if not exited: out.append(("hist:guard", "a history step with an index or a dimension outside the object was accepted"))
+        return out
+    if op in ("rot", "rotdef"):
+        alpha, dim, axis = d["alpha"], d["dim"], d["axis"]; na = len(axis)
         valid = dim == 2 or (dim == 3 and na == 3)
         if not valid:
             if not exited: out.append(("rot:guard", f"Rotation_Matrix accepted dim={dim} with a {na}-component axis"))
@@ -226,67 +750,93 @@ def predicates(c, io):
             det = R[0][0] * R[1][1] - R[0][1] * R[1][0]
             if not abs(det - 1.0) <= 64 * EPS: out.append(("rot2:determinant", f"det R = {det!r}"))
         else:
-            if not any(axis): return out          # zero axis: outside the quantifier
-            if len(R) != 3 or len(R[0]) != 3: return [("rot:shape", "3-D rotation is not 3x3")]
-            n = _unit(axis)
-            _rot_checks("rot3", R, alpha, n, out)
-            # the entries are Rodrigues' formula: images of the basis vectors
-            for j in range(3):
-                e = [1.0 if k == j else 0.0 for k in range(3)]
-                ref = _rodrigues(alpha, n, e)
-                if not all(abs(R[i][j] - ref[i]) <= 64 * EPS for i in range(3)):
-                    out.append(("rot3:rodrigues", f"column {j} of R is {[R[i][j] for i in range(3)]!r}, Rodrigues' formula gives {ref!r}")); break
+            if not any(axis) or not all(math.isfinite(x) for x in axis): return out          # zero axis: outside the quantifier
+            _rot3_matrix_checks(R, alpha, axis, out, f" (axis {axis!r})" if d["hist"] else "")
     elif op == "rotcomp":
-        a, b = v[0], v[1]; axis = v[2:5]
+        a, b, axis = d["a"], d["b"], d["axis"]
         if exited: return [("rotcomp:exit", "Rotation_Matrix terminated the process on a valid request")]
+        ea, eb = _matrix_history_slack(a, axis, d["mha"]), _matrix_history_slack(b, axis, d["mhb"])
+        if ea is None or eb is None: return out
         P, rest = _mat(o); Rab, _ = _mat(rest)
         # slack: 64 eps for the entries of the product and of R(a+b), plus the rounding of a+b (|a+b| eps / 2) seen through sin/cos
-        sl = (128 + abs(a + b)) * EPS
+        # (+ what the histories of the two factors add: each entry of the product sees at most sqrt(3) of it per factor)
+        sl = (128 + abs(a + b)) * EPS + 2 * (ea + eb)
         if not all(abs(P[i][j] - Rab[i][j]) <= sl for i in range(3) for j in range(3)):
             out.append(("rot3:composition", f"R(a) R(b) = {P!r} differs from R(a+b) = {Rab!r}"))
-        _rot_checks("rot3", P, None, _unit(axis), out, " (for the product R(a) R(b))")
-    elif op == "rotapply":
-        alpha = v[0]; axis = v[1:4]; vec = v[4:7]
-        if exited: return [("rotapply:exit", "terminated the process on a valid request")]
+        _rot_checks("rot3", P, None, _unit(axis), out, " (for the product R(a) R(b))", extra=4 * (ea + eb))
+    elif op in ("rotapply", "rotback"):
+        alpha, axis, vec = d["alpha"], d["axis"], d["v"]
+        if exited: return [(f"{op}:exit", "terminated the process on a valid request")]
+        ex = _matrix_history_slack(alpha, axis, d["mh"])
+        if ex is None: return out
         w = o[1:4]; n = _unit(axis); ref = _rodrigues(alpha, n, vec); sc = math.sqrt(_dot(vec, vec))
         # v perpendicular to the axis is turned by alpha in the right-handed sense: R v = cos(alpha) v + sin(alpha) n x v
-        if not all(abs(w[i] - ref[i]) <= 64 * EPS * sc for i in range(3)):
-            out.append(("rot3:perpendicular-turned", f"R v = {w!r}, cos(alpha) v + sin(alpha) n x v (+ axial part) = {ref!r}"))
+        if not all(abs(w[i] - ref[i]) <= (64 * EPS + 2 * ex) * sc for i in range(3)):
+            out.append(("rot3:perpendicular-turned", f"R v = {w!r}, cos(alpha) v + sin(alpha) n x v (+ axial part) = {ref!r} (axis {axis!r}, v {vec!r})"))
+        if op == "rotback":
+            # transpose equals inverse: (R v) R = R^T R v = v.  R = R_true + E with |E_ij| <= 64 eps (+ history): each component of
+            # (E^T R + R^T E) v is at most 2 * 64 eps * sqrt(3) |v|, the two products round by about 11 eps |v| more
+            back = o[5:8]
+            if not all(abs(back[i] - vec[i]) <= (256 * EPS + 4 * ex) * sc for i in range(3)):
+                out.append(("rot3:transpose-is-inverse", f"(R v) R = {back!r} instead of v = {vec!r} (axis {axis!r})"))
+    elif op == "rotsph":
+        alpha, r, th, ph, axis = d["alpha"], d["r"], d["theta"], d["phi"], d["axis"]
+        if exited: return [("rotsph:exit", "terminated the process on a valid request")]
+        ex = _matrix_history_slack(alpha, axis, d["mh"])
+        if ex is None: return out
+        w = o[1:4]; u2 = o[5:8]
+        # R(alpha) u(phi) = u(phi + alpha): the rotation and the azimuth are right-handed about the same axis.  Errors: 64 eps in R,
+        # 64 eps r in each u, seen through a sum of three products (<= 3 * 64 + 3 * 64 + 4 eps r), 64 eps r for u(phi+alpha) and
+        # |phi + alpha| eps r for the rounded sum of the angles: < 512 eps r
+        if not all(abs(w[i] - u2[i]) <= (512 * EPS + 3 * ex) * r for i in range(3)):
+            out.append(("rotsph:turning-is-increasing-phi", f"R(alpha) u(phi) = {w!r} but u(phi+alpha) = {u2!r} (alpha {alpha!r}, axis {axis!r})"))
+        _spha_checks("rotsph", r, th, axis, u2, out)
     elif op == "sph":
-        r, th, ph = v[0], v[1], v[2]
+        r, th, ph = d["r"], d["theta"], d["phi"]
         if exited: return [("sph:exit", "terminated the process")]
         w = o[1:4]; ref = [r * math.sin(th) * math.cos(ph), r * math.sin(th) * math.sin(ph), r * math.cos(th)]
         if o[0] != 3 or not all(abs(w[i] - ref[i]) <= 8 * EPS * r for i in range(3)):
             out.append(("sph:formula", f"Spherical_Coordinates = {w!r}, formula gives {ref!r}"))
-    elif op in ("spha", "sphad"):
-        r, th, ph = v[0], v[1], v[2]
-        if op == "spha": na = v[3]; axis = v[4:4 + na]
-        else: h = v[3]; axis = v[4:7]; na = 3
-        if na != 3 or not any(axis):
+    elif op in ("spha", "sphad", "sphang", "sphrot"):
+        r, th, ph, axis = d["r"], d["theta"], d["phi"], d["axis"]
+        if len(axis) != 3 or not any(axis) or not all(math.isfinite(x) for x in axis):
             return out                                # guards / zero axis: correspondence only
         if exited: return [(f"{op}:exit", "Spherical_Coordinates terminated the process for a non-zero axis")]
         n = _unit(axis)
         w = o[1:4]
-        # slack 64 eps r: each component is a sum of <= 3 terms of magnitude <= r with <= 8 roundings each
-        nr = math.sqrt(_dot(w, w))
-        if not abs(nr - r) <= 64 * EPS * r: out.append(("spha:norm", f"norm {nr!r} instead of r = {r!r} (axis {axis!r})"))
-        ct = _dot(w, n) / r
-        if not abs(ct - math.cos(th)) <= 64 * EPS: out.append(("spha:polar-angle", f"unit . axis = {ct!r}, cos(theta) = {math.cos(th)!r} (axis {axis!r})"))
-        # the component perpendicular to the axis has length r sin(theta) (polar angle theta, seen where the cosine is flat)
-        perp = [w[i] - _dot(w, n) * n[i] for i in range(3)]; sp = math.sqrt(_dot(perp, perp)) / r
-        if not abs(sp - math.sin(th)) <= 64 * EPS:
-            out.append(("spha:polar-sine", f"|u - (u.ev) ev| / r = {sp!r}, sin(theta) = {math.sin(th)!r} (theta {th!r}, axis {axis!r})"))
+        if op != "sphrot" or not d["usteps"]: _spha_checks(op, r, th, axis, w, out)
         if op == "sphad":
+            h = d["h"]
             w2 = o[5:8]
-            d = [w2[i] - w[i] for i in range(3)]
-            val = _dot(_cross(n, w), d); ref = r * r * math.sin(th) ** 2 * math.sin(h)
+            dd = [w2[i] - w[i] for i in range(3)]
+            val = _dot(_cross(n, w), dd); ref = r * r * math.sin(th) ** 2 * math.sin(h)
             # (ev x u(phi)) . (u(phi+h) - u(phi)) = r^2 sin^2(theta) sin(h) > 0: increasing phi moves the vector around the axis
             # in the right-handed sense; slack 2 * 64 eps r^2 (errors of u(phi), u(phi+h)) + rounding of phi+h
             if not abs(val - ref) <= (128 + 8) * EPS * r * r:
                 out.append(("spha:right-handed", f"(ev x u(phi)) . (u(phi+h)-u(phi)) = {val!r}, expected r^2 sin^2(theta) sin(h) = {ref!r} (axis {axis!r})"))
+        elif op == "sphang":
+            # the library's own Norm() and Angle() of the returned vector: r and theta
+            nr, a1, a2 = o[4], o[5], o[6]
+            if not abs(nr - r) <= 66 * EPS * r: out.append(("spha:norm", f"Norm() of the result is {nr!r} instead of r = {r!r} (axis {axis!r})"))
+            for got, what in ((a1, "Angle(u, axis)"), (a2, "Angle(axis, u)")):
+                _angle_checks("angle", got, w, axis, out, what)
+                # u . ev / r is within 64 eps of cos(theta) (the polar-angle clause), the quotient inside Angle within 16 eps of that
+                if not math.isnan(got): _angle_checks("spha:angle-is-theta", got, w, axis, out, what + f" for theta = {th!r}", c_claim=math.cos(th), delta=80 * EPS)
+        elif op == "sphrot":
+            # the vector the library returned (and what became of it) is the axis of a rotation
+            u = w; R, _ = _mat(o[4:])
+            if any(u) and all(math.isfinite(x) for x in u) and 1e-150 < math.sqrt(_dot(u, u)) < 1e150:
+                _rot3_matrix_checks(R, d["alpha"], u, out, f" (axis {u!r}, a vector returned by Spherical_Coordinates)")
+    elif op == "angle":
+        a, b = d["a"], d["b"]
+        if len(a) != len(b):
+            if not exited: out.append(("angle:guard", "Angle accepted vectors of differing dimensions"))
+        elif exited: out.append(("angle:exit", "Angle terminated the process"))
+        elif any(a) and any(b) and all(math.isfinite(x) for x in a + b):
+            _angle_checks("angle", o[0], a, b, out, "Angle(a, b)")
     elif op == "cross":
-        n1, a = v[0], v[1:1 + v[0]]; n2 = v[1 + n1]; b = v[2 + n1:2 + n1 + n2]
-        if n1 != 3 or n2 != 3:
+        a, b = d["a"], d["b"]
+        if len(a) != 3 or len(b) != 3:
             if not exited: out.append(("cross:guard", "Cross accepted a non-3-vector"))
         elif exited: out.append(("cross:exit", "Cross terminated the process"))
         else:
